@@ -157,6 +157,7 @@ type wrec struct {
 }
 
 type world struct {
+	conn      *iscp.Conn
 	liveAtEnd *sim.BConn
 	liveTaken bool
 	closeStarted bool
@@ -276,7 +277,15 @@ func (w *world) script() *sim.Script {
 				b.SendAck(c, u, []*message.UpstreamChunkResult{r}, nil)
 			}
 			w.cuts++
-			b.CloseConn(c) // everything sent is delivered, then the link ends
+			// everything sent is delivered, then the link breaks; the application notices at once through a request
+			// of its own that fails on the broken link (no keep-alive period has to pass)
+			vsched.Go("h:break-and-probe", func() {
+				vsched.WaitUntil("burst-delivered", func() bool { return c.Link.Delivered() })
+				b.Cut(c)
+				mctx, mcancel := vcontext.WithTimeout(vcontext.Background(), 20*time.Second)
+				defer mcancel()
+				w.conn.SendMetadata(mctx, &message.BaseTime{SessionID: "s", Name: "probe"})
+			})
 		}
 		return s
 	}
@@ -380,6 +389,7 @@ func (w *world) main() {
 		w.connErr = err
 		return
 	}
+	w.conn = conn
 	ctx := vcontext.Background()
 	var pol iscp.UpstreamOption
 	if w.p.Policy == "none" {
